@@ -233,3 +233,49 @@ class PyMachine:
             self.emu.close()
         except Exception:
             pass
+
+
+def run_chain(scen: Dict[str, Any], pts: List[int], root: str, prefix: str, cont: int) -> Dict[str, Any]:
+    """Snapshot generations.  G1 = fresh machine that loads the bundle `root` (taken before step pts[0]); for
+    g >= 2: G(g-1) runs on to step pts[g-1], saves, and keeps running `cont` steps (the reference); a fresh Gg
+    loads that bundle.  One link per g >= 2: saver's observations R (R[0] at the save, R[1+i] after continuation
+    step i), its diagnostic probes at the save, and the loaded machine's observation/probes right after the
+    load plus its next `cont` steps (it saves the next generation on the way: saving must not disturb it)."""
+    ev = scen["events"]
+    out: Dict[str, Any] = {"root_load_err": None, "root_obs": None, "links": []}
+    cur = PyMachine(scen)
+    le = cur.load(root)
+    out["root_load_err"] = le
+    out["root_obs"] = cur.observe()
+    if le is not None:
+        cur.close()
+        return out
+    pending: Optional[Dict[str, Any]] = None  # link whose loaded machine is `cur`
+    for g in range(2, len(pts) + 1):
+        k0, k1 = pts[g - 2], pts[g - 1]
+        r1 = cur.run(ev, k0, k1)
+        at_save = cur.observe()
+        path = f"{prefix}g{g}.pcsnap"
+        se = cur.save(path)
+        dg = cur.diag()
+        r2 = cur.run(ev, k1, k1 + cont)
+        cur.close()
+        if pending is not None:
+            pending["obs"] = (r1["obs"] + r2["obs"])[:cont]
+        link: Dict[str, Any] = {"gen": g, "k": k1, "save_err": se, "load_err": None, "R": [at_save] + r2["obs"],
+                                "ref_diag": dg, "obs0": None, "diag": None, "obs": []}
+        out["links"].append(link)
+        if se is not None:
+            return out
+        cur = PyMachine(scen)
+        link["load_err"] = cur.load(path)
+        link["obs0"] = cur.observe()
+        link["diag"] = cur.diag()
+        if link["load_err"] is not None:
+            cur.close()
+            return out
+        pending = link
+    if pending is not None:
+        pending["obs"] = cur.run(ev, pts[-1], pts[-1] + cont)["obs"]
+    cur.close()
+    return out
